@@ -1230,6 +1230,10 @@ var c06Corpus = []c06CorpusCase{
 	{[]string{"mem", "p1"}, []string{"set 11 k0|u8:1|||||", "inc u8 k0 1 eq:5 - 0||1|u2|b3600000000000", "get k0"}},
 	{[]string{"mem", "p1"}, []string{"size k0", "issw", "count"}},
 	{[]string{"mem", "p1"}, []string{"arek k0 k1", "count", "set 00 k0|i64:5|||||", "set 01 k0|i64:5|||||"}},
+	// the same key more than once inside ONE request: every entry is decided against the state the
+	// previous entries of that request left behind
+	{[]string{"mem", "p1"}, []string{"set 10 k0|i64:1||||| k0|i64:2||||| k1|str:61||||| k1|str:61|||||", "get k0 k1", "set 11 k2|i64:1||||| k2|i64:2||||| k2|i64:2|||||", "get k2 k2",
+		"set 01 k3|i64:1||||| k0|i64:7||||| k0|i64:7|||||", "gbk k0 k3 k0 k2", "arek k0 k3 k0", "del k1 k1 k3", "shift k2 k0 k2", "getall", "push k4:1 k4:2,1", "get k4", "del k4 k0", "issw"}},
 	// fixed-width wrap-around of every integer type, and the increment conditions at their boundary
 	{[]string{"mem"}, []string{"set 11 k0|u8:255||||| k1|i8:127||||| k2|i64:9223372036854775807||||| k3|u64:18446744073709551615||||| k4|i32:-2147483648||||| k5|u16:65535|||||",
 		"inc u8 k0 1 - - -", "inc i8 k1 1 - - -", "inc i64 k2 1 - - -", "inc u64 k3 2 - - -", "inc i32 k4 -1 - - -", "inc u16 k5 2 - - -", "getall",
